@@ -146,6 +146,13 @@ def run(ctx):
     if outs[(sd + 1, 0)][0] != outs[(sd + 1, 0)][1]: ctx.report('seed-determinism', 're-seeding with the same seed does not reproduce the same ciphertext', {'seed': sd + 1})
     if outs[(sd + 1, 0)][0] == outs[(sd + 2, 0)][0]: ctx.report('seed-sensitivity', 'different seeds give the same ciphertext', {'seeds': [sd + 1, sd + 2]})
     if outs[(sd + 1, 0)][0] == outs[(sd + 1, 10)][0]: ctx.report('fresh-randomness', 'two encryptions of the same message at different generator positions are identical', {'seed': sd + 1})
+    # --- special one-word seeds: 0, 1, the engine's modulus 2^31 - 1 and its neighbours, two seeds that differ by the modulus: all different streams
+    sp = {}
+    for sv in (0, 1, 2**31 - 2, 2**31 - 1, 2**31, 2**32 - 1, 5, 5 + 2**31 - 1, 2**31 + 5):
+        line, r = E.lib(1, [9] + key + [2**29], sv, 0, 33554432, 0); ctx.count(line)
+        if r: sp.setdefault(tuple(r['res']), []).append(sv)
+    for res_, svs in sp.items():
+        if len(svs) > 1: ctx.report('seed-sensitivity', 'the one-word seeds %s give the same ciphertext (same mask, same noise): the seed is not fed through the seed sequence, distinct seeds collapse' % svs, {'seeds': svs})
     # --- the generator is one per process: seeded by the main thread, drawn from by worker threads that run one after the other (key generation,
     #     two encryptions).  The draws must be the continuation of the seeded stream (replayed by the harness), so the two masks differ and a
     #     different seed gives a different key
